@@ -6,9 +6,15 @@
 //
 //	root > qp (capability cpu capP) > { qa: a running cpus, qb: b running cpus + one pending task of req cpus }
 //	root > qc : c running preemptable cpus (deserved desC)
-//	one node of exactly a+b+c cpus (full), every running task = 1 cpu
+//	one node of a+b+c+idle cpus, every running task = 1 cpu
 //
 // in = [capP, a, b, req, c, desB, desC, sib]   (cpus; sib=1: qa's tasks may be reclaimed too)
+//
+//	optionally followed by [idle, kind, capB]: idle cpus on the node (with idle >= req the reclaimer
+//	fits WITHOUT any eviction although legal victims of other queues are present: the branch in which
+//	a mutant of the bd1440f fix skipped the Allocatable vote); kind 1 capacity flat, 2 capacity
+//	hierarchical (default), 3 proportion; capB = capability of the leaf qb itself (0 = none).
+//	In the flat kinds spec.parent is ignored by the plugin and the chain is the leaf alone.
 // observed = [Preemptive(qb,[t]) before, Allocatable(qb,t) before, t pipelined after, #evictions sent,
 //
 //	n, (allocated, held, realCapability) in milli-cpu of qb and of each ancestor but root]
@@ -35,6 +41,7 @@ import (
 	"volcano.sh/volcano/pkg/scheduler/plugins"
 	"volcano.sh/volcano/pkg/scheduler/plugins/capacity"
 	"volcano.sh/volcano/pkg/scheduler/plugins/gang"
+	"volcano.sh/volcano/pkg/scheduler/plugins/proportion"
 
 	"verif/harness/internal/sched"
 	"verif/harness/internal/vh"
@@ -70,6 +77,10 @@ func milli(x float64) int64 {
 
 func runReclaimCase(in []int64) []int64 {
 	capP, a, b, req, c, desB, desC, sib := in[0], in[1], in[2], in[3], in[4], in[5], in[6], in[7] != 0
+	idle, kind, capB := int64(0), int64(kHier), int64(0)
+	if len(in) >= 11 {
+		idle, kind, capB = in[8], in[9], in[10]
+	}
 	snap := &api.ClusterInfo{
 		Jobs: map[api.JobID]*api.JobInfo{}, Nodes: map[string]*api.NodeInfo{},
 		Queues: map[api.QueueID]*api.QueueInfo{}, NamespaceInfo: map[api.NamespaceName]*api.NamespaceInfo{},
@@ -82,7 +93,7 @@ func runReclaimCase(in []int64) []int64 {
 		rqueue("root", "", 0, 0, true),
 		rqueue("qp", "root", capP, 0, true),
 		rqueue("qa", "qp", 0, 0, sib),
-		rqueue("qb", "qp", 0, desB, true),
+		rqueue("qb", "qp", capB, desB, true),
 		rqueue("qc", "root", 0, desC, true),
 	} {
 		snap.Queues[q.UID] = q
@@ -125,7 +136,7 @@ func runReclaimCase(in []int64) []int64 {
 		tinfo[t.ID] = ti
 		snap.Jobs[ti.Job].AddTaskInfo(ti)
 	}
-	ni := api.NewNodeInfo(sched.NodeSpec{ID: 1, Has: true, CPU: (a + b + c) * 1000, Mem: 64 << 30, Pods: 110}.Object())
+	ni := api.NewNodeInfo(sched.NodeSpec{ID: 1, Has: true, CPU: (a + b + c + idle) * 1000, Mem: 64 << 30, Pods: 110}.Object())
 	for _, t := range tasks {
 		if t.Node == 1 {
 			if err := ni.AddTask(tinfo[t.ID]); err != nil {
@@ -142,11 +153,29 @@ func runReclaimCase(in []int64) []int64 {
 		reclaimMock.Recorder = &record.FakeRecorder{}
 	}
 	cch := &sched.ScriptedCache{SchedulerCache: reclaimMock, Snap: snap, RefuseBind: map[int64]bool{}, RefuseEvict: map[int64]bool{}}
-	var snapf func() capacity.VerifSnapshot
+	// per-queue (allocated, realCapability) in milli-cpu, from whichever plugin is configured
+	var snapf func() map[api.QueueID][2]float64
 	framework.RegisterPluginBuilder(gang.PluginName, gang.New)
 	framework.RegisterPluginBuilder(capacity.PluginName, func(ar framework.Arguments) framework.Plugin {
 		p, f := capacity.VerifNew(ar)
-		snapf = f
+		snapf = func() map[api.QueueID][2]float64 {
+			m := map[api.QueueID][2]float64{}
+			for id, r := range f().Queues {
+				m[id] = [2]float64{r.Allocated.MilliCPU, r.RealCapability.MilliCPU}
+			}
+			return m
+		}
+		return p
+	})
+	framework.RegisterPluginBuilder(proportion.PluginName, func(ar framework.Arguments) framework.Plugin {
+		p, f := proportion.VerifNew(ar)
+		snapf = func() map[api.QueueID][2]float64 {
+			m := map[api.QueueID][2]float64{}
+			for id, r := range f().Queues {
+				m[id] = [2]float64{r.Allocated.MilliCPU, r.RealCapability.MilliCPU}
+			}
+			return m
+		}
 		return p
 	})
 	opt := func(name string) conf.PluginOption {
@@ -155,8 +184,13 @@ func runReclaimCase(in []int64) []int64 {
 		return o
 	}
 	co := opt(capacity.PluginName)
-	yes := true
-	co.EnabledHierarchy = &yes
+	switch kind {
+	case kHier:
+		yes := true
+		co.EnabledHierarchy = &yes
+	case kProp:
+		co = opt(proportion.PluginName)
+	}
 	tiers := []conf.Tier{{Plugins: []conf.PluginOption{opt(gang.PluginName), co}}}
 	ssn := framework.OpenSession(cch, tiers, nil)
 	defer framework.CloseSession(ssn)
@@ -175,10 +209,13 @@ func runReclaimCase(in []int64) []int64 {
 	out = append(out, vh.B(pt.Status == api.Pipelined), int64(len(cch.Evicts)))
 	s := snapf()
 	chain := []api.QueueID{"qb", "qp"}
+	if kind != kHier {
+		chain = []api.QueueID{"qb"}
+	}
 	subtree := map[api.QueueID][]api.QueueID{"qb": {"qb"}, "qp": {"qp", "qa", "qb"}}
 	out = append(out, int64(len(chain)))
 	for _, q := range chain {
-		r := s.Queues[q]
+		r := s[q]
 		held := 0.0
 		for _, job := range ssn.Jobs {
 			in := false
@@ -195,7 +232,7 @@ func runReclaimCase(in []int64) []int64 {
 				}
 			}
 		}
-		out = append(out, milli(r.Allocated.MilliCPU), milli(held), milli(r.RealCapability.MilliCPU))
+		out = append(out, milli(r[0]), milli(held), milli(r[1]))
 	}
 	return out
 }
@@ -217,4 +254,40 @@ func genReclaimCase(r *vh.Rng) []int64 {
 	}
 	desC := int64(r.Range(0, int(c)))
 	return []int64{capP, a, b, req, c, desB, desC, vh.B(r.Chance(1, 3))}
+}
+
+// genReclaimRoomCase: the directed family "room without eviction": the node has idle room for the
+// reclaimer while reclaimable pods of qc sit on it, and the ancestor qp (hierarchical) or the leaf
+// qb (its own capability) is at capability - {0, 1, req}; all three plugin modes.
+func genReclaimRoomCase(r *vh.Rng) []int64 {
+	kind := int64(r.Range(1, 3))
+	req := int64(r.Range(1, 3))
+	slack := vh.Pick(r, []int64{0, 1, req, req - 1})
+	if slack < 0 {
+		slack = 0
+	}
+	b := int64(r.Range(0, 4))
+	a := int64(r.Range(0, 6))
+	capP, capB := int64(0), int64(0)
+	if kind == kHier {
+		if r.Chance(3, 4) {
+			capP = a + b + slack // the ancestor is the binding limit
+			if capP == 0 {
+				capP = 1
+			}
+		}
+		if r.Chance(1, 4) {
+			capB = b + vh.Pick(r, []int64{slack, req, req + 1})
+		}
+	} else {
+		capB = b + slack
+		if capB == 0 {
+			capB = 1
+		}
+	}
+	c := int64(r.Range(1, 8))
+	idle := vh.Pick(r, []int64{req, req, req + 1, req - 1, 0})
+	desB := b + req + int64(r.Range(0, 2))
+	desC := int64(r.Range(0, int(c)))
+	return []int64{capP, a, b, req, c, desB, desC, vh.B(r.Chance(1, 4)), idle, kind, capB}
 }
